@@ -304,7 +304,8 @@ FAULTS = {"ENOSPC": lambda: OSError(errno.ENOSPC, "No space left on device (inje
           "EPERM": lambda: PermissionError(errno.EPERM, "Operation not permitted (injected)"),
           "KeyboardInterrupt": lambda: KeyboardInterrupt()}
 FAULT_KINDS = ["ENOSPC", "EIO", "EPERM", "KeyboardInterrupt", "ENOSPC-persistent"]
-FAULT_OPS = {"write", "flush", "fsync", "chmod", "rename", "replace", "creat", "open-w", "close-w", "remove", "truncate", "mkdir", "utime"}
+# "write-buffered": a write() that only reaches the user-space buffer; failing it stands for the buffer overflowing at that very call
+FAULT_OPS = {"write", "write-buffered", "flush", "fsync", "chmod", "rename", "replace", "creat", "open-w", "close-w", "remove", "truncate", "mkdir", "utime"}
 
 
 def tree_state(root):
